@@ -104,6 +104,12 @@ func (c *ocodeClient) SetBitMode(mode cpu.BitMode) { // Change cpu.BitMode to cp
 	c.ctx.BitModeChanges = append(c.ctx.BitModeChanges, codegen.BitModeChange{Index: len(c.Ocodes), Mode: mode})
 }
 
+// SetOrigin は ORG を記録します: 次に発行される ocode の先頭アドレスが origin になります。
+// (ORG が2回以上現れる場合や、コードの後ろに現れる場合でも、codegen が pass1 と同じアドレスで計算できるようにする)
+func (c *ocodeClient) SetOrigin(origin uint32) {
+	c.ctx.OriginChanges = append(c.ctx.OriginChanges, codegen.OriginChange{Index: len(c.Ocodes), Origin: uint64(origin)})
+}
+
 // Exec メソッドの実装
 func (c *ocodeClient) Exec() ([]byte, error) {
 	// [BITS n] が記録されている場合は、最初のモードから始めて GenerateX86 に位置ごとに適用させる
